@@ -9,6 +9,7 @@ import (
 	"sync"
 	"sync/atomic"
 	"time"
+	"unsafe"
 
 	bigbuff "github.com/joeycumines/go-bigbuff"
 
@@ -46,7 +47,8 @@ var (
 	tMyInt           = reflect.TypeOf(c19MyInt(0))
 	tMyString        = reflect.TypeOf(c19MyString(""))
 	tDuration        = reflect.TypeOf(time.Duration(0))
-	c19Types         = []reflect.Type{tInt, tString, tPtrInt, tSliceInt, tMap, tFunc, tChan, tAny, tError, tStringer, tStruct, tMyInt, tMyString, tDuration}
+	tUnsafePtr       = reflect.TypeOf(unsafe.Pointer(nil))
+	c19Types         = []reflect.Type{tInt, tString, tPtrInt, tSliceInt, tMap, tFunc, tChan, tAny, tError, tStringer, tStruct, tMyInt, tMyString, tDuration, tUnsafePtr}
 	// the value pool: every entry is an interface value that may be passed as an argument / returned
 	c19Values = []any{
 		nil, // untyped nil
@@ -54,6 +56,7 @@ var (
 		c19Func, (func())(nil), c19Chan, (chan int)(nil), c19Err, c19Stringer{"s"}, &c19Stringer{"p"}, c19Struct{5}, &c19Struct{6},
 		3.5, int64(9), []string{"x"}, (<-chan int)(c19Chan), true,
 		c19MyInt(4), c19MyString("named"), time.Duration(5), time.Second,
+		unsafe.Pointer(&c19IntA), unsafe.Pointer(nil),
 	}
 )
 
@@ -148,6 +151,7 @@ type c19Case struct {
 	bodyPanic bool
 	swapOpts  bool
 	noArgsOpt bool // omit CallArgs (only when the function takes no arguments)
+	dupOpts   bool // every option is preceded by an earlier option of its kind, which it replaces ("defaults first")
 }
 
 func (k *c19Case) String() string {
@@ -302,6 +306,19 @@ func (k *c19Case) run() *c19Outcome {
 	}
 	if k.swapOpts && len(opts) == 2 {
 		opts[0], opts[1] = opts[1], opts[0]
+	}
+	if k.dupOpts {
+		// earlier options of the same kinds, replaced by the later ones: the same argument list once more, and a
+		// catch-all slice target (valid for every signature) that must end up unused
+		var pre []bigbuff.CallOption
+		if !k.noArgsOpt {
+			pre = append(pre, bigbuff.CallArgs(append([]any(nil), k.args...)...))
+		}
+		if k.mode != 0 {
+			scratch := []any{}
+			pre = append(pre, bigbuff.CallResultsSlice(&scratch))
+		}
+		opts = append(pre, opts...)
 	}
 	var err error
 	pv := core.Recover(func() {
@@ -554,6 +571,7 @@ func genC19(r *rand.Rand) *c19Case {
 	}
 	k.bodyPanic = r.IntN(12) == 0
 	k.swapOpts = r.IntN(4) == 0
+	k.dupOpts = r.IntN(6) == 0
 	if nin == 0 && len(k.args) == 0 && r.IntN(3) == 0 {
 		k.noArgsOpt = true
 	}
@@ -568,7 +586,7 @@ func init() {
 	core.Register(&core.Property{
 		ID: "C19",
 		Rule: "cases = generated function signatures (reflect.FuncOf/MakeFunc over an 11-type pool, arity 0-4, variadic or not, 0-3 results) x argument lists (well-typed, " +
-			"one value replaced, one dropped, one extra, untyped nil) x result options (none / CallResults / CallResultsSlice with valid and invalid targets); plus complete enumeration of a reduced pool " +
+			"one value replaced, one dropped, one extra, untyped nil) x result options (none / CallResults / CallResultsSlice with valid and invalid targets; in a sixth of the cases every option is preceded by an earlier, valid option of its kind that it replaces); plus complete enumeration of a reduced pool " +
 			"(arity<=2 over the value pool), a huge-variadic family, and homonymous-types: pairs of signatures that differ only in two distinct types which print identically (function-local types with one name), called one after the other in one process with well-typed and cross-typed arguments and targets; each case is compared with an independent well-typedness reference. non-trivial = the case mixes at least one argument with a result option or is ill-typed; " +
 			"distinct = distinct (signature, args, targets) descriptions",
 		Assumptions: []string{
